@@ -1,3 +1,6 @@
+CONSTANT MaxOpen = 1
+CONSTANT MaxReq = 1
+CONSTANT MaxLevel = 9
 SPECIFICATION Spec
 CONSTRAINT Bound
 VIEW View
